@@ -373,8 +373,12 @@ VP_DECLARE_INPUT();
 void harness(void)
 {
     VP_INPUT(in);
+#ifdef HIST_FIXED_CAP /* capacity is the compile-time constant CAP */
+    const size_t cap = CAP;
+#else
     VP_ASSUME(in.cap >= 1 && in.cap <= CAP);
     const size_t cap = in.cap;
+#endif
     elem_t mem[MEMN];
     for (size_t i = 0; i < MEMN; ++i)
         mem[i] = in.junk;
@@ -445,9 +449,11 @@ void harness(void)
             VP_ASSERT(mem[i] == in.junk, "C19.hist.nothing-written-outside-storage");
 
     VP_WITNESS(cap == CAP && evictions >= 2 && q.len == cap, "C19.hist.evictions.reach");
-    VP_WITNESS(cap >= 2 && drops >= 1 && wraps >= 1 && q.len >= 2, "C19.hist.drop-and-wrap.reach");
-    VP_WITNESS(clears_then_put >= 1 && q.len >= 2, "C19.hist.clear-then-reuse.reach");
+    VP_WITNESS(cap == CAP && drops >= 1 && wraps >= 1 && (q.len >= 2 || cap == 1), "C19.hist.drop-and-wrap.reach");
+    VP_WITNESS(clears_then_put >= 1 && (q.len >= 2 || cap == 1), "C19.hist.clear-then-reuse.reach");
+#ifndef HIST_FIXED_CAP
     VP_WITNESS(cap == 1 && evictions >= 1 && drops >= 1, "C19.hist.cap1.reach");
+#endif
 }
 #endif /* MODE_HIST */
 
